@@ -80,7 +80,7 @@ type WOpts struct {
 }
 
 var WireFeatures = []string{"bind", "bind-value-impl", "value", "ivalue", "struct", "struct-fields", "struct-value-consumer", "fieldsof", "fieldsof-value", "fieldsof-ptr",
-	"sets", "nested-sets", "inline-sets", "inline-sets-deep", "struct-unexported-field", "ext-alias-suffix", "ext-name-differs-from-path", "composite", "same-name-packages-across-files", "err", "args", "unused-arg", "multi-file", "ext", "bind-foreign-ctor", "bind-split-set", "multi-result"}
+	"sets", "nested-sets", "inline-sets", "inline-sets-deep", "struct-unexported-field", "ext-alias-suffix", "ext-name-differs-from-path", "composite", "same-name-packages-across-files", "fieldsof-twice", "second-injector", "err", "args", "unused-arg", "multi-file", "ext", "bind-foreign-ctor", "bind-split-set", "multi-result"}
 
 func WAllowAll(except ...string) map[string]bool {
 	m := map[string]bool{}
@@ -124,6 +124,15 @@ func (g *wgen) want(f, label string, pct int) bool {
 	}
 	g.w.AddFeature(f)
 	return true
+}
+
+// extTypeName: type names are unique per external package only, so two packages called util
+// can both declare a type Eaa (resolution must key on the full package path).
+func (g *wgen) extTypeName(pkg string) string {
+	k := "ext:" + pkg
+	n := g.seq[k]
+	g.seq[k]++
+	return "E" + letters(n)
 }
 
 func (g *wgen) name(prefix string) string {
@@ -182,6 +191,12 @@ func (g *wgen) freshType(pkg string) TypeID {
 	if pkg != "" {
 		prefix = "E"
 	}
+	structName := func() string {
+		if pkg != "" {
+			return g.extTypeName(pkg)
+		}
+		return g.name(prefix)
+	}
 	switch rapid.IntRange(0, 6).Draw(g.rt, "tkind") {
 	case 6:
 		if pkg == "" && g.o.Allow["composite"] {
@@ -195,7 +210,11 @@ func (g *wgen) freshType(pkg string) TypeID {
 			if epkg != "" {
 				ep = "E"
 			}
-			s := g.addType(Type{Kind: KStruct, Name: g.name(ep), Pkg: epkg})
+			nm := g.name(ep)
+			if epkg != "" {
+				nm = g.extTypeName(epkg)
+			}
+			s := g.addType(Type{Kind: KStruct, Name: nm, Pkg: epkg})
 			if rapid.Bool().Draw(g.rt, "compptr") {
 				s = g.ptrTo(s)
 			}
@@ -211,16 +230,16 @@ func (g *wgen) freshType(pkg string) TypeID {
 				return g.addType(Type{Kind: KChan, Elem: s})
 			}
 		}
-		return g.ptrTo(g.addType(Type{Kind: KStruct, Name: g.name(prefix), Pkg: pkg}))
+		return g.ptrTo(g.addType(Type{Kind: KStruct, Name: structName(), Pkg: pkg}))
 	case 0:
-		return g.addType(Type{Kind: KStruct, Name: g.name(prefix), Pkg: pkg})
+		return g.addType(Type{Kind: KStruct, Name: structName(), Pkg: pkg})
 	case 1:
 		if pkg == "" {
 			return g.addType(Type{Kind: KNBasic, Name: g.name("N"), Basic: rapid.SampledFrom([]string{"int", "string", "int64"}).Draw(g.rt, "under")})
 		}
 		fallthrough
 	default:
-		s := g.addType(Type{Kind: KStruct, Name: g.name(prefix), Pkg: pkg})
+		s := g.addType(Type{Kind: KStruct, Name: structName(), Pkg: pkg})
 		return g.ptrTo(s)
 	}
 }
@@ -308,6 +327,10 @@ func GenWire(rt *rapid.T, o WOpts) *WCase {
 			g.genStruct()
 		case !last && k < 38 && g.want("fieldsof", "isfieldsof", 100):
 			g.genFieldsOf()
+			if rapid.IntRange(0, 99).Draw(rt, "fieldsof-twice") < 45 {
+				g.genFieldsOf() // two FieldsOf over different struct types in one list
+				g.w.AddFeature("fieldsof-twice")
+			}
 		default:
 			g.genProv(last)
 		}
@@ -375,10 +398,12 @@ func (g *wgen) genProv(last bool) {
 		base = st.Name
 	}
 	p.Name = "New" + base
-	if g.used[p.Name] {
+	ukey := pkg + "." + p.Name
+	if g.used[ukey] {
 		p.Name = g.name("New" + base)
+		ukey = pkg + "." + p.Name
 	}
-	g.used[p.Name] = true
+	g.used[ukey] = true
 	// foreign constructor name: a provider of a bound implementation that is not called New<Type>
 	e := WElem{Kind: "prov", Prov: p.ID}
 	prov := []TypeID{res}
@@ -766,6 +791,79 @@ func (g *wgen) assemble() {
 	}
 	inj.Elems = direct
 	w.Files[0].Injectors = append(w.Files[0].Injectors, inj)
+	// a second injector that shares providers with the first one: it requests the result of
+	// an inner provider and lists exactly that provider's cone directly (no sets)
+	if len(g.units) >= 3 && g.want("second-injector", "secondinj", 35) {
+		var cands []int
+		for u := range g.units {
+			if u != lastU && needed[u] && g.units[u].Kind == "prov" {
+				cands = append(cands, u)
+			}
+		}
+		if len(cands) > 0 {
+			root := cands[rapid.IntRange(0, len(cands)-1).Draw(g.rt, "secondroot")]
+			need2 := map[int]bool{}
+			arg2 := map[TypeID]bool{}
+			var visit2 func(u int)
+			visit2 = func(u int) {
+				if need2[u] {
+					return
+				}
+				need2[u] = true
+				for _, t := range g.requires[u] {
+					if pu, ok := g.unitOf[t]; ok {
+						visit2(pu)
+					} else {
+						arg2[t] = true
+					}
+				}
+			}
+			visit2(root)
+			consumed2 := map[TypeID]bool{g.provides[root][0]: true}
+			for u := range g.units {
+				if need2[u] {
+					for _, t := range g.requires[u] {
+						consumed2[t] = true
+					}
+				}
+			}
+			in2 := WInjector{Name: "Init" + letters(1), Want: g.provides[root][0]}
+			ok := true
+			for u := range g.units {
+				if !need2[u] {
+					continue
+				}
+				e := g.units[u]
+				if e.Kind == "fieldsof" {
+					st := g.c.T(e.Struct)
+					var keep []string
+					for _, n := range e.Fields {
+						for _, f := range st.Fields {
+							if f.Name == n && consumed2[f.Type] {
+								keep = append(keep, n)
+							}
+						}
+					}
+					if len(keep) == 0 {
+						ok = false
+					}
+					e.Fields = keep
+				}
+				if e.Kind == "prov" && g.c.ProvByID(e.Prov).Err {
+					in2.Err = true
+				}
+				in2.Elems = append(in2.Elems, e)
+			}
+			for _, a := range g.args {
+				if arg2[a] {
+					in2.Args = append(in2.Args, a)
+				}
+			}
+			if ok && len(in2.Elems) > 0 {
+				w.Files[0].Injectors = append(w.Files[0].Injectors, in2)
+			}
+		}
+	}
 	if len(w.Files) == 2 && len(w.Files[1].Sets) == 0 {
 		w.Files = w.Files[:1]
 	}
